@@ -235,6 +235,12 @@ package compile
 //@   modifies *
 //@   ensures result != nil
 //@   ensures forallof(k, parse.Node, c.typedefChain[k] == old(c.typedefChain[k]))
+// A leaf hands its own default statement to its type, key or not: the type refuses a default it does not accept
+// (RFC 6020 7.8.2 only says a key's default is not USED).
+//@ func (*Compiler).BuildLeaf
+//@   requires comp != nil && node != nil
+//@   modifies *
+//@   callsite @BuildType hasDef == node_hasdef(node) && defVal == node_def(node)
 // The member types of a union are resolved on the same chain: a typedef cycle that runs through a union member is
 // still a cycle.
 //@ func (*Compiler).getTypes
